@@ -22,7 +22,8 @@ Section Main.
   Lemma P_all : forall n, P n.
   Proof.
     induction n.
-    - unfold P, E, Cn, Ls, Ar, Ca, As, X, B, W, F, Df, Aq, En. repeat split; intros; simpl; exact I.
+    - unfold P. repeat split; try (unfold E, Cn, Ls, Ar, As, X, B, W, F, Df, Aq, En; intros; simpl; exact Logic.I).
+      apply Ca_zero.
     - destruct IHn as [HE [HC [HL [HA [HCa [HAs [HX [HB [HW [HF [HD [HQ HN]]]]]]]]]]]].
       assert (HE' : E p (S n)) by (apply E_step; auto).
       unfold P. repeat split; auto.
